@@ -1,8 +1,8 @@
 package main
 
 import (
-	"github.com/ChrisTrenkamp/xsel"
 	"fmt"
+	"github.com/ChrisTrenkamp/xsel"
 	"strings"
 )
 
